@@ -418,7 +418,7 @@ class Segment(object):
         while len(self.elements) <= ele_idx:
             # insert blank values before our value if needed
             self.elements.append(Composite('', self.subele_term))
-        if self.seg_id == 'ISA' and ele_idx in (10, 15):
+        if self.seg_id == 'ISA' and ele_idx in (10, 15) and comp_idx is None:
             #Special handling for ISA segment: ISA11 and ISA16 hold delimiters,
             #which must not be split at any delimiter (not even at themselves)
             whole = Composite('', self.ele_term)
